@@ -234,3 +234,31 @@ Proof.
       change (r_clients r1') with (r_clients r1). rewrite F. exact Hf.
   - unfold rrec, drec. destruct Hgone as (G1 & _). cbn [r_dealer r_set_dealer]. rewrite G1. congruence.
 Qed.
+
+(** ** A timeout the router keeps for itself arms a timer *)
+Theorem timeout_kept_arms_timer_proof : forall cfg ops1 x q opts proc a kw orc ops2 y i rid det,
+    Forall op_ok (ops1 ++ OMsg x (CCall q opts proc a kw) orc :: ops2) ->
+    k0 cfg + N.of_nat (List.length (ops1 ++ OMsg x (CCall q opts proc a kw) orc :: ops2)) <= max_idN ->
+    along gate_transparent (init_realm cfg) (ops1 ++ OMsg x (CCall q opts proc a kw) orc :: ops2) ->
+    let r1 := fst (run (init_realm cfg) ops1) in
+    snd (step r1 (OMsg x (CCall q opts proc a kw) orc)) = [(y, RInvocation i rid det a kw)] ->
+    ~ rrec r1 (x, q) ->
+    (0 < opt_int64 opts "timeout")%Z -> dget det "timeout" = None ->
+    exists t, nget (d_timers (r_dealer r1)) t = None /\
+              nget (d_timers (r_dealer (fst (step r1 (OMsg x (CCall q opts proc a kw) orc))))) t =
+              Some (clock (trace cfg ops1) + Z.to_N (opt_int64 opts "timeout"), (x, q)).
+Proof.
+  intros cfg ops1 x q opts proc a kw orc ops2 y i rid det Ho Hk Hg r1 Eout Hnr Hpos Hdet.
+  destruct (at_position cfg ops1 _ ops2 Ho Hk Hg) as (W1 & B1 & K & _). cbv zeta in *. fold r1 in W1, B1, K.
+  pose proof (wf_calls _ _ (rw_dealer r1 W1)) as Wc.
+  cbn [step13_kind] in K. destruct (find_session (r_clients r1) x) as [s|] eqn:F.
+  2:{ rewrite step_msg_eq, F in Eout. discriminate Eout. }
+  cbn [msg13] in K. destruct K as [(_ & Hn)|(y' & i' & rid' & det' & Eo & _ & _ & _ & Kind)].
+  { rewrite Eout in Hn. specialize (Hn _ (or_introl eq_refl)). discriminate Hn. }
+  rewrite Eout in Eo. assert (X : y' = y /\ i' = i /\ det' = det) by (inversion Eo; auto). destruct X as (-> & -> & ->).
+  destruct Kind as [(_ & _ & inv' & _ & _ & _ & _ & Ht)|(inv & inv' & Hi & Ec & _)].
+  - destruct Ht as [(_ & _ & [Hle|Hne])|(t & _ & Hfr & Et & _ & _)]; [lia|contradiction|].
+    exists t. split; [exact Hfr|]. rewrite Et, nget_nset, N.eqb_refl, (bi_now _ _ B1). reflexivity.
+  - exfalso. apply Hnr. unfold rrec, drec. destruct (record_pending _ _ _ Wc Hi) as (Hc & _). rewrite Ec in Hc.
+    cbn [fst] in Hc. congruence.
+Qed.
